@@ -1,11 +1,17 @@
 /-
-  Driver for C13: one EVSE, a sequence of operations, the observable state after each.
-  request : {"kind":…, "atol":bits, "ops":[{"op":"set_pilot","p","V","T","nu"} |
-             {"op":"plugin","ev":…} | {"op":"unplug"} | {"op":"valid","p","atol"}]}
+  Driver for C13: a network of EVSEs built by `register_evse` calls, the advertised description after
+  every registration (network cache + Interface accessors), a sequence of operations addressed to
+  the stations, the observable state after each.
+  request : {"kind":…,                       -- the EVSE registered under "S" when "net" is absent
+             "net": {"regs":[{"id","kind"}…], -- optional: the `register_evse` calls, in order
+                     "queries":[id…]},        -- ids asked through the Interface after every call
+             "ops":[{"op":"set_pilot","p","V","T","nu"} | {"op":"plugin","ev":…} | {"op":"unplug"} |
+                    {"op":"valid","p","atol"}]}   -- each with an optional "at": station id (default "S")
 -/
 import AcnModel.WireModels
+import AcnModel.EvseNet
 import AcnModel.Gen.Consts
-open Lean Acn Acn.Wire Acn.Evse
+open Lean Acn Acn.Wire Acn.Evse Acn.EvseNet
 
 def fixedAtol : Float := fOfBits Acn.Gen.finiteAtolBits
 
@@ -23,7 +29,7 @@ def stepOp (s : Evse Float) (o : Json) : Except String (Evse Float × Json) := d
   if op == "set_pilot" then
     match setPilot (defaultAtol s.kind) fixedAtol s (← getF o "p") (← getF o "V") (← getF o "T") (← getF o "nu") with
     | .ok s' => pure (s', Json.mkObj (("err", Json.null) :: jState s'))
-    | .error e => pure (s, Json.mkObj (("err", jS (errName e)) :: jState s))
+    | .error e => pure (s, Json.mkObj (("err", jS (Wire.errName e)) :: jState s))
   else if op == "plugin" then
     let ej ← o.getObjVal? "ev"
     match ← parseEv ej with
@@ -31,7 +37,7 @@ def stepOp (s : Evse Float) (o : Json) : Except String (Evse Float × Json) := d
     | .ok e =>
       match plugin s e with
       | .ok s' => pure (s', Json.mkObj (("err", Json.null) :: jState s'))
-      | .error e => pure (s, Json.mkObj (("err", jS (errName e)) :: jState s))
+      | .error e => pure (s, Json.mkObj (("err", jS (Wire.errName e)) :: jState s))
   else if op == "unplug" then
     let s' := unplug s
     pure (s', Json.mkObj (("err", Json.null) :: jState s'))
@@ -40,20 +46,74 @@ def stepOp (s : Evse Float) (o : Json) : Except String (Evse Float × Json) := d
     pure (s, Json.mkObj [("valid", jB v)])
   else throw s!"unknown op {op}"
 
+/-- apply an operation to the station it is addressed to; the other stations are not touched -/
+def stepAt (ss : List (Evse Float)) (o : Json) : Except String (List (Evse Float) × Json) := do
+  let sid := (← getOpt o "at" (fun v => v.getStr?)).getD "S"
+  match ss.findIdx? (fun s => s.station == sid) with
+  | none => throw s!"operation addressed to unregistered station {sid}"
+  | some i =>
+    match ss[i]? with
+    | none => throw "unreachable"
+    | some s =>
+      let (s', r) ← stepOp s o
+      pure (ss.set i s', r)
+
+def jBounds (l : List (Bound Float)) : Json := jFs (l.map fOfBound)
+
+def jErr (e : EvseNet.Err) : Json := Json.mkObj [("err", jS (EvseNet.errName e))]
+
+/-- the three Interface accessors for one id -/
+def jQuery (n : Net Float) (sid : String) : Json :=
+  Json.mkObj [
+    ("id", jS sid),
+    ("allowable", match ifaceAllowable n sid with
+      | .ok (c, a) => Json.mkObj [("err", Json.null), ("cont", jB c), ("vals", jBounds a)]
+      | .error e => jErr e),
+    ("max", match ifaceMax n sid with
+      | .ok m => Json.mkObj [("err", Json.null), ("v", jF (fOfBound m))]
+      | .error e => jErr e),
+    ("min", match ifaceMin n sid with
+      | .ok m => Json.mkObj [("err", Json.null), ("v", jF m)]
+      | .error e => jErr e)]
+
+/-- the network cache (`_update_info_store`) and the Interface answers for the queried ids -/
+def jSnap (n : Net Float) (queries : List String) : Json :=
+  let info := infoStore n
+  Json.mkObj [
+    ("ids", jList jS info.ids),
+    ("maxs", jBounds info.maxs), ("mins", jFs info.mins),
+    ("allow", jList jBounds info.allow), ("cont", jList jB info.cont),
+    ("infra_ok", jB (infraOk n)),
+    ("iface", jList (jQuery n) queries)]
+
+def parseStation (j : Json) : Except String (Station Float) := do
+  pure { id := ← getStr j "id", kind := ← parseKind (← j.getObjVal? "kind") }
+
 def handle (j : Json) : Except String Json := do
   let kind ← parseKind (← j.getObjVal? "kind")
   let ops ← getArr j "ops"
-  let s0 : Evse Float := { station := "S", kind, pilot := 0, ev := none }
+  let (regs, queries) ← match j.getObjVal? "net" with
+    | .ok nj => do
+      let rs ← (← getArr nj "regs").mapM parseStation
+      let qs ← (← getArr nj "queries").mapM (fun v => v.getStr?)
+      pure (rs, qs)
+    | .error _ => pure ([({ id := "S", kind } : Station Float)], ["S"])
+  -- the description after each `register_evse` call
+  let snaps := (List.range regs.length).map fun k => jSnap (Net.run (regs.take (k + 1))) queries
+  let net := Net.run regs
   let info := Json.mkObj [
     ("max", jF (fOfBound (maxRate kind))), ("min", jF (minRate kind)),
     ("cont", jB (isContinuous kind)),
     ("allowable", jFs ((allowable kind).map fOfBound))]
-  let mut s := s0
+  let mut ss : List (Evse Float) :=
+    net.stations.map fun st => { station := st.id, kind := st.kind, pilot := 0, ev := none }
   let mut outs : Array Json := #[]
   for o in ops do
-    let (s', r) ← stepOp s o
-    s := s'
+    let (ss', r) ← stepAt ss o
+    ss := ss'
     outs := outs.push r
-  pure (Json.mkObj [("info", info), ("steps", Json.arr outs)])
+  let final := ss.map fun s => Json.mkObj (("id", jS s.station) :: jState s)
+  pure (Json.mkObj [("info", info), ("steps", Json.arr outs), ("snaps", Json.arr snaps.toArray),
+                    ("final", Json.arr final.toArray)])
 
 def main : IO Unit := runDriver handle
